@@ -37,7 +37,7 @@ CONSTANTS MaxIter,      \* loop iteration limit of the model (the engines' own l
                         \*  "VM_MissingKeyNull"     o["k"] on a missing key is null
                         \*  "VM_DupKeyFirst"        {a: 1, a: 2} keeps the first value
                         \*  "VM_ForVarFlat"         loop variables overwrite an outer variable of the same name
-                        \*  "VM_NoAbs" "VM_LenObjError"  builtin table differences
+                        \*  "VM_LenObjError"  builtin table difference
 
 Progs == ndJsonDeserialize("progs.ndjson")
 
@@ -184,6 +184,47 @@ SplitStr(s, sep) == IF sep = "" THEN [i \in 1..Len(s) |-> Ch(s, i)]
 RECURSIVE JoinStrs(_, _, _)
 JoinStrs(parts, sep, i) == IF i > Len(parts) THEN "" ELSE parts[i] \o (IF i < Len(parts) THEN sep ELSE "") \o JoinStrs(parts, sep, i + 1)
 IntStr(n) == IF n < 0 THEN "-" \o ToString(-n) ELSE ToString(n)
+\* 0-based position of the first occurrence of t in s, -1 when there is none (the empty string occurs at 0)
+StrIndex(s, t) == IF t = "" THEN 0 ELSE IF ~StrContains(s, t) THEN -1 ELSE FirstAt(s, t) - 1
+RECURSIVE ReplaceAll(_, _, _)
+\* every non-overlapping occurrence, left to right
+ReplaceAll(s, old, new) == IF ~StrContains(s, old) THEN s
+                           ELSE LET i == FirstAt(s, old) IN SubSeq(s, 1, i - 1) \o new \o ReplaceAll(SubSeq(s, i + Len(old), Len(s)), old, new)
+Digits == "0123456789"
+IsDigit(c) == IdxIn(c, Digits) > 0
+AllDigits(s) == s # "" /\ \A i \in 1..Len(s) : IsDigit(Ch(s, i))
+RECURSIVE DecVal(_, _)
+DecVal(s, acc) == IF s = "" THEN acc ELSE DecVal(SubSeq(s, 2, Len(s)), acc * 10 + IdxIn(Ch(s, 1), Digits) - 1)
+StripSign(s) == IF s # "" /\ Ch(s, 1) \in {"+", "-"} THEN SubSeq(s, 2, Len(s)) ELSE s
+IsNegStr(s) == s # "" /\ Ch(s, 1) = "-"
+\* parseInt: blanks around are ignored; an optional sign and decimal digits, nothing else
+ParseIntStr(s0) == LET s == TrimR(TrimL(s0)) d == StripSign(s) IN
+    IF ~AllDigits(d) THEN [ok |-> FALSE, err |-> "parse"]
+    ELSE IF Len(d) > 6 THEN [ok |-> FALSE, err |-> "UNREP"]
+    ELSE [ok |-> TRUE, v |-> IF IsNegStr(s) THEN -DecVal(d, 0) ELSE DecVal(d, 0)]
+\* parseFloat: decimal notation, digits on at least one side of an optional point.  Exponents, hex floats, inf and
+\* nan (accepted by the implementation's number parser) are outside the model, as are fractions that are not quarters.
+ParseFloatStr(s0) == LET s == TrimR(TrimL(s0))
+                         d == StripSign(s)
+                         dot == StrIndex(d, ".")
+                         ip == IF dot < 0 THEN d ELSE SubSeq(d, 1, dot)
+                         fp == IF dot < 0 THEN "" ELSE SubSeq(d, dot + 2, Len(d))
+                         okc == \A i \in 1..Len(d) : IsDigit(Ch(d, i)) \/ Ch(d, i) = "."
+                         odd == \E i \in 1..Len(d) : Ch(d, i) \in {"e", "E", "x", "X", "p", "P", "_", "i", "I", "n", "N"} IN
+    IF odd THEN [ok |-> FALSE, err |-> "UNREP"]
+    ELSE IF ~okc \/ (ip = "" /\ fp = "") \/ (ip # "" /\ ~AllDigits(ip)) \/ (fp # "" /\ ~AllDigits(fp)) THEN [ok |-> FALSE, err |-> "parse"]
+    ELSE IF Len(ip) > 5 \/ Len(fp) > 4 THEN [ok |-> FALSE, err |-> "UNREP"]
+    ELSE LET fr == IF fp = "" THEN 0 ELSE DecVal(fp, 0) * (CASE Len(fp) = 1 -> 1000 [] Len(fp) = 2 -> 100 [] Len(fp) = 3 -> 10 [] OTHER -> 1)
+             whole == IF ip = "" THEN 0 ELSE DecVal(ip, 0) IN
+         IF fr % 2500 # 0 THEN [ok |-> FALSE, err |-> "UNREP"]
+         ELSE [ok |-> TRUE, q |-> (IF IsNegStr(s) THEN -1 ELSE 1) * (whole * 4 + fr \div 2500)]
+\* the shortest decimal spelling of a float: 3.0 is "3", 3.5 is "3.5"
+ShortFloat(q) == LET a == IF q < 0 THEN -q ELSE q IN
+    (IF q < 0 THEN "-" ELSE "") \o ToString(a \div 4) \o (CASE a % 4 = 0 -> "" [] a % 4 = 1 -> ".25" [] a % 4 = 2 -> ".5" [] a % 4 = 3 -> ".75")
+
+\* keys of an object in ascending order (REF: the interpreter iterates in Go map order)
+SortedFields(o) == LET idx == SelectSeq(KeyOrder, LAMBDA k : HasKey(o, k)) IN
+                   [i \in 1..Len(idx) |-> [name |-> idx[i], v |-> GetKey(o, idx[i])]]
 
 (* ---- patterns of match expressions ----------------------------------------------------- *)
 \* MatchPat(p, v, b) = [ok, b]: whether v matches p and the bindings made (b: name -> value).  Bindings made by a
@@ -285,6 +326,8 @@ Eval(e, sc) ==
                            CASE r.ctl = "error" -> Err(r.val)
                              [] r.ctl \in {"return", "next"} -> (IF r.st # 200 THEN Err("UNREP") ELSE Ok(r.val))
                              [] OTHER -> Err("loopctl")
+      [] e.e = "pipe" ->      \* x |> f(a, ...) is f(x, a, ...): the value on the left is the first argument
+            Eval([e |-> "fcall", fn |-> e.fn, as |-> <<e.x>> \o e.as], sc)
       [] e.e = "calln" ->     \* string builtins (arguments evaluated left to right, then checked)
             LET av == EvalSeq(e.as, sc, 1) IN
             IF ~av.ok THEN av
@@ -306,7 +349,42 @@ Eval(e, sc) ==
                    [] e.fn = "join" ->
                         IF n # 2 \/ g[1].k # "arr" \/ ~IsS(2) THEN Err("type")
                         ELSE IF \E i \in 1..Len(g[1].e) : g[1].e[i].k \notin {"str", "int"} THEN Err("UNREP")      \* other elements print in Go's %v form
-                        ELSE Ok(VStr(JoinStrs([i \in 1..Len(g[1].e) |-> IF g[1].e[i].k = "str" THEN g[1].e[i].v ELSE IntStr(g[1].e[i].v)], g[2].v, 1))))
+                        ELSE Ok(VStr(JoinStrs([i \in 1..Len(g[1].e) |-> IF g[1].e[i].k = "str" THEN g[1].e[i].v ELSE IntStr(g[1].e[i].v)], g[2].v, 1)))
+                   [] e.fn = "startsWith" -> IF n # 2 \/ ~IsS(1) \/ ~IsS(2) THEN Err("type")
+                                             ELSE Ok(VBool(Len(g[2].v) <= Len(g[1].v) /\ SubSeq(g[1].v, 1, Len(g[2].v)) = g[2].v))
+                   [] e.fn = "endsWith" -> IF n # 2 \/ ~IsS(1) \/ ~IsS(2) THEN Err("type")
+                                           ELSE Ok(VBool(Len(g[2].v) <= Len(g[1].v) /\ SubSeq(g[1].v, Len(g[1].v) - Len(g[2].v) + 1, Len(g[1].v)) = g[2].v))
+                   [] e.fn = "indexOf" -> IF n # 2 \/ ~IsS(1) \/ ~IsS(2) THEN Err("type") ELSE Ok(VInt(StrIndex(g[1].v, g[2].v)))
+                   [] e.fn = "charAt" ->
+                        IF n # 2 \/ ~IsS(1) \/ ~IsI(2) THEN Err("type")
+                        ELSE IF Sp(g[2]) = "big" \/ g[2].v < 0 \/ g[2].v >= Len(g[1].v) THEN Err("bounds")
+                        ELSE Ok(VStr(Ch(g[1].v, g[2].v + 1)))
+                   [] e.fn = "replace" ->
+                        IF n # 3 \/ ~IsS(1) \/ ~IsS(2) \/ ~IsS(3) THEN Err("type")
+                        ELSE IF g[2].v = "" THEN Err("UNREP")       \* an empty pattern: the implementation inserts between characters; not modelled
+                        ELSE LET r == ReplaceAll(g[1].v, g[2].v, g[3].v) IN Ok(VStr(r))
+                   [] e.fn \in {"min", "max"} ->      \* two integers or two floats (no coercion between them: "arguments must be same type")
+                        IF n # 2 \/ g[1].k \notin {"int", "float"} \/ g[2].k # g[1].k THEN Err("type")
+                        ELSE IF Sp(g[1]) # "" \/ Sp(g[2]) # "" THEN Err("UNREP")
+                        ELSE LET x == Q(g[1]) y == Q(g[2]) IN
+                             Ok(IF e.fn = "min" THEN (IF x < y THEN g[1] ELSE g[2]) ELSE (IF x > y THEN g[1] ELSE g[2]))
+                   [] e.fn = "parseInt" ->
+                        IF n # 1 \/ ~IsS(1) THEN Err("type")
+                        ELSE LET r == ParseIntStr(g[1].v) IN IF r.ok THEN Ok(VInt(r.v)) ELSE Err(r.err)
+                   [] e.fn = "parseFloat" ->
+                        IF n # 1 \/ ~IsS(1) THEN Err("type")
+                        ELSE LET r == ParseFloatStr(g[1].v) IN IF r.ok THEN Ok(VFloat(r.q)) ELSE Err(r.err)
+                   [] e.fn = "toString" ->
+                        IF n # 1 THEN Err("type")
+                        ELSE CASE g[1].k = "str" -> Ok(g[1])
+                               [] g[1].k = "int" -> (IF Sp(g[1]) = "big" THEN Ok(VStr(g[1].s)) ELSE Ok(VStr(IntStr(g[1].v))))
+                               [] g[1].k = "bool" -> Ok(VStr(IF g[1].v THEN "true" ELSE "false"))
+                               [] g[1].k = "null" -> Ok(VStr("null"))
+                               [] g[1].k = "float" -> (IF Sp(g[1]) # "" THEN Err("UNREP") ELSE Ok(VStr(ShortFloat(g[1].q))))
+                               [] OTHER -> Err("UNREP")       \* arrays and objects: no documented spelling
+                   [] e.fn = "keys" ->       \* the keys of an object, ascending
+                        IF n # 1 \/ g[1].k # "obj" THEN Err("type")
+                        ELSE LET fs == SortedFields(g[1]) IN Ok(VArr([i \in 1..Len(fs) |-> VStr(fs[i].name)])))
       [] e.e = "call" ->      \* builtins of the fragment, one argument
             LET a == Eval(e.a, sc) IN
             IF ~a.ok THEN a
@@ -316,8 +394,7 @@ Eval(e, sc) ==
                         ELSE IF a.v.k = "obj" THEN (IF Dev("VM_LenObjError") THEN Err("type") ELSE Ok(VInt(Len(a.v.f))))      \* number of keys
                         ELSE Err("type")
                    [] e.fn = "abs" ->
-                        IF Dev("VM_NoAbs") THEN Err("undefined")
-                        ELSE IF a.v.k = "int" THEN Ok(VInt(Abs(a.v.v)))
+                        IF a.v.k = "int" THEN Ok(VInt(Abs(a.v.v)))
                         ELSE IF a.v.k = "float" THEN Ok(VFloat(Abs(a.v.q)))
                         ELSE Err("type")
 
@@ -358,10 +435,6 @@ EvalCases(cs, v, sc, i) ==
 \* `>` yields the value of its last statement).
 \* st: the HTTP status the route answers with (200 unless a guard or `> v :: N` says otherwise)
 R(sc, ctl, val, fuel) == [sc |-> sc, ctl |-> ctl, val |-> val, fuel |-> fuel, st |-> 200]
-
-\* keys of an object in ascending order (REF: the interpreter iterates in Go map order)
-SortedFields(o) == LET idx == SelectSeq(KeyOrder, LAMBDA k : HasKey(o, k)) IN
-                   [i \in 1..Len(idx) |-> [name |-> idx[i], v |-> GetKey(o, idx[i])]]
 
 RECURSIVE Exec(_, _, _), While(_, _, _, _), ForEach(_, _, _, _, _), Switch(_, _, _, _, _)
 
@@ -520,6 +593,7 @@ SrcE(e, min) ==
       [] e.e = "call" -> e.fn \o "(" \o SrcE(e.a, 0) \o ")"
       [] e.e = "calln" -> e.fn \o "(" \o SrcList(e.as, 1) \o ")"
       [] e.e = "fcall" -> e.fn \o "(" \o SrcList(e.as, 1) \o ")"
+      [] e.e = "pipe" -> Wrap(SrcE(e.x, IF e.x.e = "pipe" THEN 0 ELSE 1) \o " |> " \o e.fn \o (IF e.bare THEN "" ELSE "(" \o SrcList(e.as, 1) \o ")"), min > 0)
       [] e.e = "match" -> "match " \o SrcE(e.x, 40) \o " {\n" \o SrcMCases(e.cases, 1) \o "    }"
       [] e.e = "async" -> "async {\n" \o SrcB(e.b, 3, 1) \o "    }"
       [] e.e = "await" -> Wrap("await " \o SrcE(e.a, 40), min > 0)     \* await takes a whole expression: (await f) + 1
